@@ -81,6 +81,9 @@ type vHub struct {
 	// a room join request whose answer is held back (joinrace)
 	roomHold    chan struct{}
 	roomArrived chan struct{}
+	// the same for a virtual session "add" request (vaddrace)
+	addHold    chan struct{}
+	addArrived chan struct{}
 	raceDelayMs int
 }
 
@@ -242,7 +245,18 @@ func (h *vHub) backendHandler(b int, w http.ResponseWriter, req *http.Request) {
 	case "session":
 		h.mu.Lock()
 		ok := h.sessionOk
+		ahold, aarrived := h.addHold, h.addArrived
 		h.mu.Unlock()
+		if ahold != nil && request.Session != nil && request.Session.Action == "add" {
+			select {
+			case aarrived <- struct{}{}:
+			default:
+			}
+			select {
+			case <-ahold:
+			case <-time.After(5 * time.Second):
+			}
+		}
 		if !ok && request.Session != nil && request.Session.Action == "add" {
 			http.Error(w, "backend down", http.StatusInternalServerError)
 			return
